@@ -5,6 +5,7 @@ package main
 // the defaults afterwards; behavioural non-interference probes.
 
 import (
+	"bytes"
 	"fmt"
 	"sort"
 	"strings"
@@ -165,6 +166,15 @@ func probeAll() string {
 
 var freshProbe string
 
+// uncastProbe: decoding without the cast flag, on texts every cast option has an opinion about.
+func uncastProbe() string {
+	doc := []byte(`<d a="NaN" b="1" c="true"><x>Inf</x><y>true</y><z>12</z><w>-Infinity</w><v k="+inf">3.5</v></d>`)
+	m, _ := mxj.NewMapXml(doc)
+	mr, _ := mxj.NewMapXmlReader(bytes.NewReader(doc))
+	ms, _ := mxj.NewMapXmlSeq(doc)
+	return enc(map[string]interface{}(m)) + "\x1f" + enc(map[string]interface{}(mr)) + "\x1f" + enc(map[string]interface{}(ms))
+}
+
 // seqJsonProbe: what attribute prefix / case folding must not affect.
 func seqJsonProbe() string {
 	doc := []byte(`<Doc A-b="1"><Item ID="1">x</Item></Doc>`)
@@ -189,7 +199,16 @@ func c18Exec(op string) string {
 	var dumps []string
 	for i, cl := range calls {
 		before := mxj.VerifOptions()
+		castOpt := strings.HasPrefix(cl.name, "Cast") || cl.name == "SetCheckTagToSkipFunc"
+		uncastBefore := ""
+		if castOpt {
+			uncastBefore = uncastProbe()
+		}
 		applyCall(cl)
+		// the cast options do not affect decoding without the cast flag
+		if castOpt && uncastProbe() != uncastBefore {
+			notes = append(notes, fmt.Sprintf("UNCAST call %d (%s %v) changed what decoding WITHOUT the cast flag returns", i, cl.name, cl.arg))
+		}
 		dumps = append(dumps, dumpOptions())
 		// explicit forms are idempotent
 		if cl.arg != nil || cl.name == "XmlGoEmptyElemSyntax" || cl.name == "XmlDefaultEmptyElemSyntax" {
